@@ -10,19 +10,43 @@ from harness.core import Failure, Family, Support, drive
 LEAN_MODULES = ["DxModel.Props.C07"]
 GENERATED = []
 TRUSTED = [
-    "pandas' own dtype inference on stand-in data (meta_nonempty / _emulate) — outside the model; dtype *kinds* are compared end-to-end",
-    "label-level model of rename/add_prefix/add_suffix/projection/assign/drop/filter (Schema.lean), tied by the labels family",
+    "pandas' own behaviour at schema level — the primitives of DxModel/Meta.lean part 2 (getitem, rename, reset_index / set_index labels, "
+    "merge suffixes, concat union / intersection of labels and index names, groupby keys -> index levels, value_counts names, the "
+    "dtype-kind table `aggKind`/`Kind.join`/`Kind.na`): not proven, tied on every run to what pandas does on the stand-ins (`_meta`) and on "
+    "real partitions by the families decl_nodes / decl_random / partitions / reduction_kinds",
+    "meta_nonempty: which stand-in indexes align (concat axis=1 is modelled only for inputs with one index class)",
+    "the column rules of Dx.Cols used by `pushdown` are tied to the real `_simplify_up` methods by C04's families; here only the "
+    "resulting `_meta` of every node of the really optimized expression is compared (family optimized_nodes)",
 ]
 PARTIAL = [
-    "dtype kinds are not modelled (pandas inference); compared end to end up to pandas' promotion of int/bool columns that acquire missing values",
-    "operators outside the label-level fragment (reductions, groupby, merge, concat, reshaping) are covered only by the node-by-node comparison of every vetted plan",
+    "C07_tree_sound_partial holds under `guardT`: no user column `_partitions` / duplicate labels in front of a shuffle (D88 open), numeric "
+    "columns under mean (D90 open: datetime mean is declared but cannot be computed), no column-less input and equal index kinds in a "
+    "row-wise Concat, `.index` only of frames/series; the guards are evaluated on every instance of the partitions family",
+    "push-down theorems: Assign and the frame/series reductions are not covered; groupby not for `mean` / scalar selections; rename needs "
+    "a unique source per requested label; suffix needs a non-empty suffix (C04); merge needs KeysDoNotCollide (C04/N1); concat only row-wise "
+    "(axis=1 is open finding D35, kept as C07_push_concat_axis1_counterexample)",
+    "dtype kinds: modelled as int/float/bool/object/datetime (str folded into object, categoricals / timedeltas / nullable extension "
+    "dtypes outside); the theorems are equalities in the absence of missing-value promotion, `Kind.promotes`/`SchPromotes` is the tolerated "
+    "relation (C07_promotion_frame) and is applied by the harness when comparing computed partitions; value-dependent inference on empty "
+    "partitions is tolerated by the harness only",
+    "operators outside the model (user functions, rolling/cumulative, binary arithmetic, astype, categorical/str/dt accessors, index "
+    "merges, multi-function agg specs, split_out>1 shuffle reductions, concat of inputs with different numbers of index levels) are opaque "
+    "sources in the trees and are covered only by the node-by-node end-to-end comparison of every vetted plan",
 ]
 EXPLANATION = (
-    "Theorems: declared labels = labels of the computed frame for every label-level operator and every chain, hence for "
-    "every partition (incl. empty), and independent of whether the stand-in meta or real data is used. Tie: real `_meta.columns` "
-    "of generated operator chains vs the model. Support: for every node of every plan stage of the vetted programs x layouts "
-    "(incl. empty partitions): container kind, labels and order, series/index names and dtype kinds of `_meta` equal those of "
-    "the computed node and of each computed partition; the optimised plan declares the same schema as the query."
+    "Model (DxModel/Meta.lean): schemas = container kind, labels+dtype kinds in order, series name, index level names+kinds; for 22 operator "
+    "classes the declared-schema function (`_meta` transliterated) and the per-partition task pipeline (chunk/combine/aggregate trees of any "
+    "shape, shuffle helper column, merge_chunk(result_meta), StackPartition pass-through-or-restack, Mean = sum/count). Theorems: per-operator "
+    "agreement lemmas and C07_tree_sound_partial (every computed partition of every guarded expression tree has exactly the declared schema, "
+    "by induction over trees), run-time-shape independence of the declaration, and for the projection push-down of Dx.Cols applied to trees "
+    "(keep/Filter, rename, add_prefix/suffix, set_index, groupby, reset_index, merge, row-wise concat) that the rewritten tree declares the same "
+    "schema. Counterexample theorems for the guards that the real code violates (D88, D90, D35). Tie: every node of enumerated and "
+    "seeded-random queries built with the public API is translated from the REAL expression (class + operands) into a model tree and its real "
+    "`_meta` compared with the model's declaration; the same for every node of the really optimized expression; computed partitions of the "
+    "lowered unoptimized plan are compared with the model's per-partition schema up to the promotion relation; the dtype-kind table is "
+    "compared with real reductions. Support: for every node of every plan stage of the vetted programs x layouts (incl. empty partitions): "
+    "container kind, labels and order, series/index names and dtype kinds of `_meta` equal those of the computed node and of each computed "
+    "partition; the optimised plan declares the same schema as the query; regression cases for D80/D84/D85/D89/D96 and the open findings."
 )
 
 
@@ -119,6 +143,253 @@ def fam_labels(ctx):
             reqs.append("schema chain labels=a,b,c,d ops=" + ";".join(_render(o) for o in ops))
             inputs.append({"ops": [_render(o) for o in ops], "form": form})
     f.compare(inputs, code, drive(reqs))
+    return f
+
+
+# --------------------------------------------------------------------------- T2: `_meta` of real expressions vs the tree model
+
+
+def _build(thunk):
+    """-> collection or None when the real API refuses the query (pandas errors surface at construction)"""
+    try:
+        q = thunk()
+    except Exception:  # noqa: BLE001
+        return None
+    return q if hasattr(q, "expr") else None
+
+
+def _node_requests(label, expr, reqs, code, inputs, dist, seen_trees):
+    """one `schema decl` request per translatable node of `expr` that has a modelled operator at its root"""
+    from harness.props import c07_meta as cm
+
+    seen = set()
+    for nd in expr.walk():
+        if nd._name in seen:
+            continue
+        seen.add(nd._name)
+        tr = cm.to_tree(nd)
+        if "/" not in tr or tr in seen_trees:
+            continue
+        seen_trees.add(tr)
+        try:
+            m = cm.render_sch(nd._meta)
+        except Exception:  # noqa: BLE001
+            m = "ERR"
+        reqs.append("schema decl t=" + tr)
+        code.append(m)
+        inputs.append({"query": label, "node": type(nd).__name__, "tree": tr})
+        k = cm.op_class(tr)
+        dist[k] = dist.get(k, 0) + 1
+
+
+def _dist_note(dist, extra=""):
+    return extra + "nodes per operator class: " + ", ".join(f"{k}={v}" for k, v in sorted(dist.items()))
+
+
+def fam_decl_nodes(ctx):
+    """enumerated one/two-operator instances of every modelled class over the frame pool"""
+    from harness.props import c07_meta as cm
+
+    f = Family("decl_nodes[_meta of every node of enumerated queries per operator class (real classes, public API) vs Meta.declT]")
+    qs = cm.enumerated_queries()
+    if ctx.quick:
+        idx = list(range(len(qs)))
+        ctx.rng.shuffle(idx)
+        qs = [qs[i] for i in sorted(idx[:1100])]
+    reqs, code, inputs, dist, seen = [], [], [], {}, set()
+    refused = 0
+    for label, thunk in qs:
+        q = _build(thunk)
+        if q is None:
+            refused += 1
+            continue
+        _node_requests(label, q.expr, reqs, code, inputs, dist, seen)
+    f.compare(inputs, code, drive(reqs))
+    f.exhaustive = not ctx.quick
+    f.note = _dist_note(dist, f"{len(qs)} queries ({refused} refused by pandas/dask at construction); ")
+    return f
+
+
+def fam_decl_random(ctx):
+    """seeded-random compositions (depth 2-5) of the modelled operators"""
+    from harness.props import c07_meta as cm
+
+    f = Family("decl_random[_meta of every node of seeded-random operator compositions vs Meta.declT]")
+    reqs, code, inputs, dist, seen = [], [], [], {}, set()
+    n, built = (260 if ctx.quick else 4000), 0
+    for _ in range(n):
+        r = cm.random_query(ctx.rng, ctx.rng.randint(2, 5))
+        if r is None:
+            continue
+        built += 1
+        _node_requests(r[0], r[1].expr, reqs, code, inputs, dist, seen)
+    f.compare(inputs, code, drive(reqs))
+    f.note = _dist_note(dist, f"{built}/{n} random compositions accepted by the real API; ")
+    return f
+
+
+def _projected(ctx, q):
+    """a column selection on top of a frame query (what makes the push-down rules fire)"""
+    m = q._meta
+    if not isinstance(m, pd.DataFrame) or len(m.columns) < 2 or not all(isinstance(c, str) for c in m.columns):
+        return None
+    cols = list(m.columns)
+    sel = ctx.rng.sample(cols, k=ctx.rng.randint(1, len(cols) - 1))
+    try:
+        return q[sel] if (len(sel) > 1 or ctx.rng.random() < 0.6) else q[sel[0]]
+    except Exception:  # noqa: BLE001
+        return None
+
+
+def fam_optimized_nodes(ctx):
+    """every node of the REALLY optimized expression (projection push-down applied by the real rules), and the model's
+    own push-down of the root"""
+    from dask_expr._expr import optimize_until
+
+    from harness.props import c07_meta as cm
+
+    f = Family("optimized_nodes[_meta of every node of the really simplified expression vs Meta.declT; Meta.pushdown keeps the root's declared schema]")
+    qs = cm.enumerated_queries()
+    idx = list(range(len(qs)))
+    ctx.rng.shuffle(idx)
+    qs = [qs[i] for i in sorted(idx[: (500 if ctx.quick else len(qs))])]
+    rnd = []
+    for _ in range(120 if ctx.quick else 2500):
+        r = cm.random_query(ctx.rng, ctx.rng.randint(1, 4))
+        if r is not None:
+            rnd.append(r)
+    reqs, code, inputs, dist, seen = [], [], [], {}, set()
+    pushes, fired = 0, 0
+    push_reqs, push_inputs, push_code = [], [], []
+    for label, q in [(lb, _build(th)) for lb, th in qs] + rnd:
+        if q is None:
+            continue
+        q2 = _projected(ctx, q)
+        if q2 is None:
+            continue
+        try:
+            opt = optimize_until(q2.expr, "simplified-logical")
+        except Exception:  # noqa: BLE001
+            continue  # optimiser failures belong to C01 (and to this check's support search)
+        _node_requests(label + "[sel]", opt, reqs, code, inputs, dist, seen)
+        tr = cm.to_tree(q2.expr)
+        if tr.count("/") >= 2:
+            root = cm.render_sch(q2._meta)
+            try:
+                after = cm.render_sch(opt._meta)
+            except Exception:  # noqa: BLE001
+                after = "ERR"  # the optimized query cannot declare its schema any more (C04: N1)
+            parent_cols = cm.strs(q2.expr.columns) if hasattr(q2.expr, "columns") else "-"
+            push_reqs.append(f"schema push t={tr} deps={parent_cols}")
+            push_inputs.append({"query": label + "[sel]", "tree": tr})
+            push_code.append(f"{after} {root}")
+            pushes += 1
+    f.compare(inputs, code, drive(reqs))
+    ans = drive(push_reqs)
+    ins, cs, ms = [], [], []
+    for i, c, a in zip(push_inputs, push_code, ans):
+        if a == "NONE":
+            continue  # no modelled rule fires on this root
+        fired += 1
+        ins.append(i)
+        cs.append(c)
+        ms.append(a)
+    f.compare(ins, cs, ms)
+    f.note = _dist_note(dist, f"model push-down fired on {fired}/{pushes} roots; ")
+    return f
+
+
+def _rt_suffix(rng, which=None):
+    return "@%d.%d.%d.%d.%d.%d" % (rng.randint(0, 1), rng.randint(0, 3), rng.randint(0, 3), rng.randint(0, 3),
+                                   rng.randint(0, 5) if which is None else which, rng.randint(0, 1))
+
+
+def fam_partitions(ctx):
+    """computed partitions of the lowered (unoptimized) plan vs Meta.compT, for random run-time shapes of every node"""
+    import dask
+
+    from harness.props import c07_meta as cm
+
+    f = Family("partitions[schema of every computed partition of the lowered query vs Meta.compT up to Kind.promotes; Meta.guardT holds]")
+    qs = cm.enumerated_queries()
+    idx = list(range(len(qs)))
+    ctx.rng.shuffle(idx)
+    todo = [(lb, _build(th)) for lb, th in (qs[i] for i in sorted(idx[: (260 if ctx.quick else 3000)]))]
+    for _ in range(60 if ctx.quick else 1500):
+        r = cm.random_query(ctx.rng, ctx.rng.randint(2, 4))
+        if r is not None:
+            todo.append(r)
+    reqs, meta = [], []
+    promoted = guard_false = not_run = 0
+    for label, q in todo:
+        if q is None:
+            continue
+        e = q.expr
+        try:
+            low = e.lower_completely()
+            g = dict(low.__dask_graph__())
+            parts = list(dask.get(g, low.__dask_keys__()))
+        except Exception:  # noqa: BLE001
+            not_run += 1  # declared-but-not-computable queries are the support search's business (D90)
+            continue
+        rt = {nd._name: _rt_suffix(ctx.rng) for nd in e.walk()}
+        offs = None
+        if type(e).__name__ == "Concat" and e.axis == 0:
+            offs = [i for i, fr in enumerate(e._frames) for _ in range(fr.npartitions)]
+        for j, part in enumerate(parts):
+            if offs is not None and j < len(offs):
+                rt[e._name] = _rt_suffix(ctx.rng, offs[j])
+            tr = cm.to_tree(e, rt)
+            if "/" not in tr:
+                continue
+            reqs.append("schema comp t=" + tr)
+            reqs.append("schema guard t=" + tr)
+            meta.append((label, j, tr, cm.render_sch(part), hasattr(part, "__len__") and len(part) == 0))
+    ans = drive(reqs)
+    ins, cs, ms = [], [], []
+    for k, (label, j, tr, c, empty) in enumerate(meta):
+        m, gd = ans[2 * k], ans[2 * k + 1]
+        if gd != "1":
+            guard_false += 1  # outside the theorem's hypothesis: nothing is claimed
+            continue
+        c2, p = cm.canon(c, m, empty)
+        promoted += p
+        ins.append({"query": label, "partition": j, "tree": tr})
+        cs.append(c2)
+        ms.append(m)
+    f.compare(ins, cs, ms)
+    f.note = f"{len(meta)} partitions; {promoted} equal only up to the promotion relation; {guard_false} outside guardT; {not_run} queries not executable"
+    return f
+
+
+def fam_reduction_kinds(ctx):
+    """the dtype-kind table of the model (aggKind, Kind.join, emptyKind) vs real frame reductions"""
+    import itertools
+
+    import dask_expr as dx
+
+    from harness.props import c07_meta as cm
+
+    f = Family("reduction_kinds[dtype kind of df.f()._meta for all kind tuples (len<=3) x 7 reductions vs Meta.redKind]")
+    vals = {"i": [1, 2], "f": [1.5, 2.5], "b": [True, False], "o": ["x", "y"], "d": list(pd.to_datetime(["2020-01-01", "2020-01-02"]))}
+    reqs, code, inputs = [], [], []
+    tuples = [()] + [t for n in (1, 2, 3) for t in itertools.product("ifbod", repeat=n)]
+    if ctx.quick:
+        tuples = [t for t in tuples if len(t) <= 2] + ctx.rng.sample([t for t in tuples if len(t) == 3], 25)
+    for ks in tuples:
+        pdf = pd.DataFrame({f"c{i}": vals[k] for i, k in enumerate(ks)}, index=[0, 1])
+        df = dx.from_pandas(pdf, npartitions=1)
+        for fn in cm.REDS:
+            try:
+                m = getattr(df, fn)()._meta
+                c = cm.kch(m.dtype)
+            except Exception:  # noqa: BLE001
+                c = "ERR"
+            reqs.append(f"schema kinds f={fn} ks={','.join(ks)}")
+            code.append(c)
+            inputs.append({"f": fn, "kinds": "".join(ks)})
+    f.compare(inputs, code, drive(reqs))
+    f.exhaustive = not ctx.quick
     return f
 
 
@@ -257,7 +528,43 @@ def _extra_queries():
     qs.append(("from_map_empty_selection", lambda dx_: fm(dx_, A)[[]]))
     qs.append(("from_map_concat_foreign_column", lambda dx_: dx_.concat([fm(dx_, A), fm(dx_, B)])[["d"]]))
     qs.append(("set_index_drop_false_head", lambda dx_: dx_.from_pandas(plain, npartitions=3).set_index("x", drop=False).head(3, compute=False)))
+    # D89 (fixed): row-wise concat of inputs with different index names / series names
+    A2 = pd.DataFrame({"a": [1, 2]}, index=pd.Index([1, 2], name="i"))
+    B2 = pd.DataFrame({"a": [3, 4]}, index=pd.Index([3, 4], name="j"))
+    qs.append(("concat_index_names_reset", lambda dx_: dx_.concat([dx_.from_pandas(A2, npartitions=1), dx_.from_pandas(B2, npartitions=1)]).reset_index()))
+    qs.append(("concat_series_names_to_frame", lambda dx_: dx_.concat([dx_.from_pandas(A, npartitions=1).a, dx_.from_pandas(A, npartitions=1).b]).to_frame(name="v")))
+    # D96 (fixed): column selection above a list-sliced groupby aggregation
+    G = pd.DataFrame({"a": [1, 2, 3, 4], "b": [1.0, 2, 3, 4], "c": [5, 6, 7, 8], "k": [0, 0, 1, 1]})
+    qs.append(("groupby_list_slice_select", lambda dx_: dx_.from_pandas(G, npartitions=2).groupby("k")[["a", "b"]].sum()[["a"]]))
+    qs.append(("groupby_list_slice_count_select", lambda dx_: dx_.from_pandas(G, npartitions=2).groupby("k")[["b", "a"]].count()[["a"]]))
+    # D88 (open): a user column named like the shuffle's helper column
+    Rsv = pd.DataFrame({"_partitions": [5, 6, 7, 8, 9, 10], "a": [3, 1, 2, 6, 5, 4], "b": list("xyzuvw")})
+    Rr = pd.DataFrame({"a": [1, 2, 3, 4, 5, 6], "z": [1, 1, 1, 1, 1, 1]})
+    qs.append(("reserved_label_set_index", lambda dx_: dx_.from_pandas(Rsv, npartitions=3).set_index("a", shuffle_method="tasks")))
+    qs.append(("reserved_label_shuffle", lambda dx_: dx_.from_pandas(Rsv, npartitions=3).shuffle("a", shuffle_method="tasks")))
+    qs.append(("reserved_label_merge", lambda dx_: dx_.from_pandas(Rsv, npartitions=3).merge(dx_.from_pandas(Rr, npartitions=2), on="a", shuffle_method="tasks")))
+    # D90 (open): mean of a datetime column is declared but cannot be computed
+    Dt = pd.DataFrame({"a": [1, 2, 3, 4], "e": pd.to_datetime(["2020-01-01"] * 4)})
+    qs.append(("datetime_mean_series", lambda dx_: dx_.from_pandas(Dt, npartitions=2).e.mean()))
+    qs.append(("datetime_mean_frame", lambda dx_: dx_.from_pandas(Dt, npartitions=2)[["e"]].mean()))
+    # D35 (open) seen by C07: the rule removes an input of a column-wise concat and with it the declared promotion
+    Bi = pd.DataFrame({"c": [1, 2, 3, 4], "d": [5, 6, 7, 8]}, index=pd.Index([0, 1, 2, 3], name="id"))
+    qs.append(("concat_axis1_select", lambda dx_: dx_.concat([dx_.from_pandas(A, npartitions=1), dx_.from_pandas(Bi, npartitions=1)], axis=1)[["a"]]))
     return qs
+
+
+_EXTRA_SIG = {
+    "reserved_label_set_index": {"kind": "schema-reserved-label", "label": "_partitions", "op": "set_index"},
+    "reserved_label_shuffle": {"kind": "schema-reserved-label", "label": "_partitions", "op": "shuffle"},
+    "reserved_label_merge": {"kind": "schema-reserved-label", "label": "_partitions", "op": "merge"},
+    "datetime_mean_series": {"kind": "schema-declared-but-raises", "op": "mean", "dtype": "datetime", "input": "series"},
+    "datetime_mean_frame": {"kind": "schema-declared-but-raises", "op": "mean", "dtype": "datetime", "input": "frame"},
+    "concat_axis1_select": {"site": "Concat._simplify_up", "axis": 1, "kind": "schema-opt-changed"},
+    "concat_index_names_reset": {"kind": "schema-concat-passthrough-names", "what": "index-name"},
+    "concat_series_names_to_frame": {"kind": "schema-concat-passthrough-names", "what": "series-name"},
+    "groupby_list_slice_select": {"kind": "schema-pushdown-raises", "op": "groupby-list-slice"},
+    "groupby_list_slice_count_select": {"kind": "schema-pushdown-raises", "op": "groupby-list-slice"},
+}
 
 
 def check_extra(name):
@@ -272,8 +579,29 @@ def check_extra(name):
         g, keys, parts = plans.execute(e)
         for i, part in enumerate(parts):
             act = schema_of(part)
-            if enforced and not compatible(decl, act, len(part) == 0):
+            if enforced and not compatible(decl, act, hasattr(part, "__len__") and len(part) == 0):
                 return f"{name}, stage {st}, partition {i}: declared {decl} computed {act}"
+    return None
+
+
+def check_enumerated(label):
+    """end-to-end check of one enumerated query of the correspondence families: declared vs computed partitions, before and
+    after optimization (used to turn a model-vs-code disagreement into a concrete failing input)"""
+    from harness.props import c07_meta as cm
+
+    thunk = dict(cm.enumerated_queries()).get(label)
+    if thunk is None:
+        return None
+    q = thunk()
+    decl = schema_of(q._meta)
+    for st, e in plans.stage_exprs(q.expr, stages=["simplified-logical", "fused"]):
+        if st != "unoptimized" and schema_of(e._meta) != decl:
+            return f"{label}: declared {decl}, after '{st}' {schema_of(e._meta)}"
+        g, keys, parts = plans.execute(e)
+        for i, part in enumerate(parts):
+            act = schema_of(part)
+            if not compatible(decl, act, hasattr(part, "__len__") and len(part) == 0):
+                return f"{label}, stage {st}, partition {i}: declared {decl} computed {act}"
     return None
 
 
@@ -287,7 +615,7 @@ def _cases(ctx):
 
 
 def families(ctx):
-    return [fam_labels]
+    return [fam_labels, fam_decl_nodes, fam_decl_random, fam_optimized_nodes, fam_partitions, fam_reduction_kinds]
 
 
 def support(ctx, broken):
@@ -300,7 +628,25 @@ def support(ctx, broken):
         sup.executed += 1
         sup.count("extra")
         if msg:
-            sup.failures.append(Failure(sig={"kind": "schema-extra", "query": name}, case={"extra": name}, detail=msg))
+            sup.failures.append(Failure(sig=_EXTRA_SIG.get(name, {"kind": "schema-extra", "query": name}), case={"extra": name}, detail=msg))
+    # steer by what broke: the disagreeing inputs of the correspondence families, executed for real
+    steered = []
+    for b in broken or []:
+        if b.get("kind") == "correspondence" and isinstance(b.get("first"), dict):
+            inp = b["first"].get("input")
+            if isinstance(inp, dict) and isinstance(inp.get("query"), str):
+                lb = inp["query"][:-5] if inp["query"].endswith("[sel]") else inp["query"]
+                steered.append((b.get("family", "?").split("[")[0], lb))
+    for fam, lb in steered[:8]:
+        try:
+            msg = check_enumerated(lb)
+        except Exception as ex:  # noqa: BLE001
+            msg = f"{lb}: raised {type(ex).__name__}: {str(ex)[:160]}"
+        sup.executed += 1
+        sup.count("steered")
+        if msg:
+            sup.failures.append(Failure(sig={"kind": "schema-model-disagreement", "family": fam, "query": lb},
+                                        case={"enumerated": lb}, detail=msg))
     layouts = [0, 1] if ctx.quick else [0, 1, 2, 3, 4]
     for p in _cases(ctx):
         for layout in layouts:
@@ -321,6 +667,9 @@ def support(ctx, broken):
 
 
 def replay(case):
+    if "enumerated" in case:
+        msg = check_enumerated(case["enumerated"])
+        return Failure(sig={}, case=case, detail=msg) if msg else None
     if "extra" in case:
         msg = check_extra(case["extra"])
         return Failure(sig={}, case=case, detail=msg) if msg else None
